@@ -240,6 +240,12 @@ def finish(prop, tier, seed, level, merged, failures, rule, t0, guards=None, ass
             inconclusive.append(f"guard {g[0]}: observed {g[1]} < needed {g[2]}")
     os.makedirs(os.path.join(HOME, "evidence"), exist_ok=True)
     os.makedirs(os.path.join(HOME, "replays"), exist_ok=True)
+    import glob
+    for old_rp in glob.glob(os.path.join(HOME, "replays", f"{prop}-{tier}-*.json")):
+        try:
+            os.unlink(old_rp)
+        except OSError:
+            pass
     lines = []
     for sig, vs in sorted(known_seen.items()):
         lines.append(f"KNOWN-FINDING: property={prop} {sig} :: {findings[(prop, sig)]} (seen {len(vs)}x this run)")
